@@ -720,6 +720,26 @@ func init() {
 		}
 		return bytesToValues(in.regexReplaceAll(re, src, repl).bytes())
 	})
+	reg("(*regexp.Regexp).ReplaceAllLiteral", func(in *Interp, fr *frame, a []Value) Value {
+		re := in.nativeRegexp(a[0])
+		src := valuesToStr(a[1].([]Value))
+		repl := valuesToStr(a[2].([]Value))
+		cs, ok1 := src.Concrete()
+		cr, ok2 := repl.Concrete()
+		if ok1 && ok2 {
+			return bytesToValues(mkStr(string(re.ReplaceAllLiteral([]byte(cs), []byte(cr)))).bytes())
+		}
+		bs := src.bytes()
+		var out []SByte
+		last := 0
+		for _, m := range in.findAll(re, bs, -1) {
+			out = append(out, bs[last:m[0]]...)
+			out = append(out, repl.bytes()...)
+			last = m[1]
+		}
+		out = append(out, bs[last:]...)
+		return bytesToValues(out)
+	})
 	reg("(*regexp.Regexp).String", func(in *Interp, fr *frame, a []Value) Value { return mkStr(in.nativeRegexp(a[0]).String()) })
 
 	// ---- time / net / json / os / url: contracts ----
